@@ -11,6 +11,9 @@
 //   stdout:  <stage> \t <msgs>     stage = PPFAIL | PARSEFAIL | RAN:<result int>
 //   msgs = ';' separated  level:code:filehex:line:col:texthex   of every message that carries a location or is info level
 //   (file with the temp dir replaced by /T)
+// cmd FRAME: FRAME \t <hex of SQF text> \t <max>: the text is parsed, a frame over its instructions is moved by frame::next() only.
+//   stdout:  OK \t <line:col:offset of every instruction, ','> \t <for m = 0..max calls of next(): position|inv:line:col:offset of
+//            diag_info_from_position(), ','>       |  PARSEFAIL
 // any case: CRASH <sig> | TIMEOUT | OOM | EXCEPTION ... from vh::forked.
 #include "sqfrt.hpp"
 #include <filesystem>
@@ -49,6 +52,34 @@ int main(int argc, char** argv)
         if (f.size() != 3) { std::cout << "BADLINE\n"; continue; }
         for (auto& e : fs::directory_iterator(dir)) fs::remove_all(e.path());
         std::string cmd = f[0];
+        if (cmd == "FRAME")
+        {
+            std::string code = unhex(f[1]);
+            long maxm = std::stol(f[2]);
+            auto res = forked([&]() -> std::string {
+                VM vm(2500, true);
+                sqf::runtime::fileio::pathinfo pi{ std::string(sdir + "/f.sqf"), std::string("/v/f.sqf") };
+                auto set = vm.rt->parser_sqf().parse(*vm.rt, code, pi);
+                if (!set.has_value()) return "PARSEFAIL";
+                auto show = [](const sqf::runtime::diagnostics::diag_info& d) {
+                    return std::to_string(d.line) + ":" + std::to_string(d.column) + ":" + std::to_string(d.file_offset);
+                };
+                std::string out = "OK\t";
+                bool first = true;
+                for (auto it = set->begin(); it != set->end(); ++it) { out += (first ? "" : ",") + show((*it)->diag_info()); first = false; }
+                if (first) out += "-";
+                out += "\t";
+                sqf::runtime::frame fr(vm.rt->default_value_scope(), set.value());
+                for (long m = 0; m <= maxm; m++)
+                {
+                    if (m > 0) { fr.next(); out += ","; }
+                    out += (fr.position() == sqf::runtime::frame::position_invalid ? std::string("inv") : std::to_string(fr.position())) + ":" + show(fr.diag_info_from_position());
+                }
+                return out;
+            }, 3000 * VH_SLOW, VH_MEM_MB, 64);
+            std::cout << res << "\n";
+            continue;
+        }
         std::string mainname = unhex(f[1]);
         std::string maintext;
         bool have_main = false;
